@@ -14,6 +14,8 @@ correspond  : U-pyformat     Model pyFormat (f/e/g/d, sign, zero fill) vs CPytho
                              Transform._update_values: which of the 12 numbers of a TR input stay a jump) vs the
                              written card, on TR / *TR inputs read with jumps, after is_in_degrees /
                              rotation_matrix / displacement_vector assignments in any order
+              U-transform-history  Model run/writesOf (setters, assignments in the arrays the getters hand out, writes)
+                             vs the live Transform at every write of a history: what it holds (exact) and what it writes
 judge       : the written text of the REAL code: first word re-read by the Lean Spec and by an independent
               Python Fortran reader, compared with the value set (tolerance pinned to 1e-9); integers exact;
               unchanged values verbatim; no fusion with the following word.
@@ -77,6 +79,9 @@ THEOREMS = [
     "C05_transform_entries",
     "C05_transform_written",
     "C05_transform_unit_switch",
+    "C05_transform_history_frame",
+    "C05_transform_history",
+    "C05_transform_inplace_held",
 ]
 
 WORKERS = 8
@@ -374,9 +379,8 @@ def _tr_layout(deg, number, words):
     return "\n".join(lines)
 
 
-def gen_tr_case(rng, i):
-    """A TR / *TR input with jumps (single or nJ, anywhere among the up to 13 entries), then a history of
-    is_in_degrees / rotation_matrix / displacement_vector assignments and writes."""
+def _gen_tr_card(rng, i):
+    """A TR / *TR input with jumps (single or nJ, anywhere among the up to 13 entries): (card, in degrees, entries)."""
     deg0 = rng.random() < 0.5
     n = [12, 3, 12, 8, 13, 9, 12, 13][i % 8]
     pj = rng.choice([0.15, 0.4, 0.7, 1.0])
@@ -406,6 +410,13 @@ def gen_tr_case(rng, i):
         m13 = rng.choice(["1", "-1", "j"])
         words.append(m13)
     card = _tr_layout(deg0, rng.choice([1, 2, 5, 17, 999]), words)
+    return card, deg0, n
+
+
+def gen_tr_case(rng, i):
+    """A TR / *TR input with jumps (single or nJ, anywhere among the up to 13 entries), then a history of
+    is_in_degrees / rotation_matrix / displacement_vector assignments and writes."""
+    card, deg0, n = _gen_tr_card(rng, i)
     ops, deg = [], deg0
     for rnd in range(2 if rng.random() < 0.15 else 1):
         step = []
@@ -450,6 +461,61 @@ def gen_tr_case(rng, i):
         ops.append(["format"])
         if rng.random() < 0.1:
             ops.append(["format"])
+    return {"unit": "transform", "card": card, "ops": ops}
+
+
+def _tr_entry_value(rng, pos, deg):
+    """A value for entry `pos` of the 12 numbers: the default of either unit, the pool, or a random number."""
+    r = rng.random()
+    if r < 0.25:
+        return float(TR_DEFAULTS[deg][pos])
+    if r < 0.45:
+        return float(TR_DEFAULTS[not deg][pos])
+    if r < 0.85:
+        return rng.choice(TR_VALUES)
+    return round(rng.uniform(-1, 1) if not deg else rng.uniform(0, 180), rng.choice([2, 6, 15]))
+
+
+def gen_tr_inplace_case(rng, i):
+    """Edits through the mutable values the public getters hand out, between writes: a TR / *TR input (jumps anywhere)
+    is optionally edited through the setters and written (a check point), then in each further round entries of
+    `rotation_matrix` / `displacement_vector` are assigned IN the array the getter returns (`t.rotation_matrix[k] = v`,
+    `t.displacement_vector[k] = v`) or the array is fetched, modified and handed back through the setter
+    (`m = t.rotation_matrix; m[k] = v; t.rotation_matrix = m`), alone or next to ordinary assignments, and the input
+    is written again."""
+    card, deg0, n = _gen_tr_card(rng, i)
+    ops, deg = [], deg0
+    if rng.random() < 0.45:  # something assigned through the setters before the first write
+        for name in rng.sample(["deg", "rot", "disp"], rng.choice([1, 1, 2])):
+            if name == "deg":
+                deg = (not deg) if rng.random() < 0.7 else deg
+                ops.append(["deg", deg])
+            elif name == "rot":
+                vals = [_tr_entry_value(rng, k + 3, deg) for k in range(9 if n == 13 else rng.choice([9, 9, 5, 6]))]
+                if not any(vals):
+                    vals[0] = 1.0
+                ops.append(["rot", [nf.num(v) for v in vals]])
+            else:
+                ops.append(["disp", [nf.num(0.0 if rng.random() < 0.4 else rng.choice(TR_VALUES)) for _ in range(3)]])
+    if rng.random() < 0.85:
+        ops.append(["format"])
+    for rnd in range(rng.choice([1, 1, 1, 2, 2, 3])):
+        for _ in range(rng.choice([1, 1, 1, 2, 3])):
+            r = rng.random()
+            if r < 0.5:
+                k = rng.randrange(9)
+                ops.append(["rot_at", k, nf.num(_tr_entry_value(rng, k + 3, deg))])
+            elif r < 0.7:
+                ks = sorted(rng.sample(range(9), rng.choice([1, 2, 9])))
+                ops.append(["rot_back", [[k, nf.num(_tr_entry_value(rng, k + 3, deg))] for k in ks]])
+            elif r < 0.9:
+                ops.append(["disp_at", rng.randrange(3), nf.num(0.0 if rng.random() < 0.2 else rng.choice(TR_VALUES))])
+            elif r < 0.95:
+                deg = not deg
+                ops.append(["deg", deg])
+            else:
+                ops.append(["disp", [nf.num(rng.choice(TR_VALUES)) for _ in range(3)]])
+        ops.append(["format"])
     return {"unit": "transform", "card": card, "ops": ops}
 
 
@@ -509,8 +575,14 @@ def run_impl_tr(case):
             obj = mp.data_from(case["card"])
         except Exception as e:  # noqa: BLE001 - a card MontePy does not read: counted, C12's business
             return dict(out, skip="parse:" + type(e).__name__)
+        try:
+            out["state0"] = _tr_state(obj)  # the transform as it was read (read-only observation)
+        except Exception:  # noqa: BLE001 - no history comparison for this case
+            out["state0"] = None
         outs = []
-        for op in case["ops"]:
+        applied = []  # the in-place operations that found their entry (a card without matrix has no entry to assign)
+        out["applied"] = applied
+        for n_op, op in enumerate(case["ops"]):
             try:
                 if op[0] == "deg":
                     obj.is_in_degrees = op[1]
@@ -518,6 +590,22 @@ def run_impl_tr(case):
                     obj.rotation_matrix = np.array([float(nf.unnum(v)) for v in op[1]])
                 elif op[0] == "disp":
                     obj.displacement_vector = np.array([float(nf.unnum(v)) for v in op[1]])
+                elif op[0] == "rot_at":  # an entry assigned in the array the public getter hands out
+                    if op[1] < len(obj.rotation_matrix):
+                        obj.rotation_matrix[op[1]] = float(nf.unnum(op[2]))
+                        applied.append(n_op)
+                elif op[0] == "disp_at":
+                    if op[1] < len(obj.displacement_vector):
+                        obj.displacement_vector[op[1]] = float(nf.unnum(op[2]))
+                        applied.append(n_op)
+                elif op[0] == "rot_back":  # fetched, modified, handed back through the setter (the same array object)
+                    matrix = obj.rotation_matrix
+                    if len(matrix) >= 5:
+                        for k, v in op[1]:
+                            if k < len(matrix):
+                                matrix[k] = float(nf.unnum(v))
+                        obj.rotation_matrix = matrix
+                        applied.append(n_op)
                 else:
                     o = {}
                     try:
@@ -537,22 +625,35 @@ def run_impl_tr(case):
     return out
 
 
-def judge_tr(case, res):
+def judge_tr(case, res, notes=None):
     """C05 on a TR input: every number of a vector assigned through the API is, at its position of the written card
     and read the way MCNP reads that card (a jump = the default of the unit the card is written in), the number
-    that was assigned.  Returns (signature, what) of the first violation or None."""
+    that was assigned.  An entry is assigned by the setter of its vector, or by an assignment into the array the public
+    getter hands out (`t.rotation_matrix[k] = v`); an entry assigned before an earlier write is still assigned.
+    Returns (signature, what) of the first violation or None; reasons for not judging a write go to `notes`."""
     if "skip" in res:
         return None
     base = {"mechanism": "transform-entry"}
-    set_vec = {"disp": None, "rot": None}
+    # position within the vector -> (value assigned through the API, how)
+    set_vec = {"disp": {}, "rot": {}}
+    applied = set(res.get("applied", []))
     switched = False
     k = -1
-    for op in case["ops"]:
+    for n_op, op in enumerate(case["ops"]):
         if op[0] == "deg":
             switched = True
             continue
         if op[0] in set_vec:
-            set_vec[op[0]] = [float(nf.unnum(v)) for v in op[1]]
+            set_vec[op[0]] = {j: (float(nf.unnum(v)), "setter") for j, v in enumerate(op[1])}
+            continue
+        if op[0] in ("rot_at", "disp_at"):
+            if n_op in applied:
+                set_vec[op[0][:-3]][op[1]] = (float(nf.unnum(op[2])), "in-place")
+            continue
+        if op[0] == "rot_back":
+            if n_op in applied:
+                for j, v in op[1]:
+                    set_vec["rot"][j] = (float(nf.unnum(v)), "in-place")
             continue
         k += 1
         if k >= len(res["outs"]):
@@ -561,19 +662,31 @@ def judge_tr(case, res):
         sig = dict(base, unit_assigned=switched)
         if "raised" in o:
             return dict(sig, **{"class": "raises", "site": "tr"}), f"writing {case['card']!r} raised {o['raised']}"
-        if set_vec["disp"] is None and set_vec["rot"] is None:
+        if not set_vec["disp"] and not set_vec["rot"]:
             continue
         rd = read_tr_card(o["lines"])
         if rd is None:
             return dict(sig, **{"class": "unreadable", "site": "tr"}), f"wrote {o['lines']!r}: not a TR input of numbers"
         deg_w, ent = rd
+        st = o.get("state")
         for site, start in (("disp", 0), ("rot", 3)):
             vec = set_vec[site]
-            if vec is None:
+            if not vec:
                 continue
-            for j, v in enumerate(vec):
+            if site == "rot" and any(how == "in-place" for _, how in vec.values()):
+                # in-place assignments can leave a matrix of zeros only, which MontePy takes for "no matrix"
+                # (the setter histories never assign one); and entries behind the end of the matrix do not exist
+                if st is None or not any(nf.unnum(v) != 0 for v in st["rot"]):
+                    if notes is not None:
+                        notes.append("skipped:matrix-of-zeros" if st is not None else "skipped:no-state")
+                    continue
+                vec = {j: e for j, e in vec.items() if j < len(st["rot"])}
+            for j in sorted(vec):
+                v, how = vec[j]
                 p = start + j
                 sg = dict(sig, site="tr_" + ("displacement" if site == "disp" else "rotation"))
+                if how == "in-place":
+                    sg["edit"] = "in-place"
                 # an entry left off at the end of the card is for MCNP what a jump is: the default
                 y = ent[p] if p < len(ent) else None
                 as_jump = y is None
@@ -582,7 +695,7 @@ def judge_tr(case, res):
                 if not nf.close_pinned(y, v):
                     cls = "jump-for-value" if as_jump else "precision-lost"
                     return dict(sg, **{"class": cls}), (
-                        f"{'*TR' if deg_w else 'TR'} entry {p} set to {v!r} is written "
+                        f"{'*TR' if deg_w else 'TR'} entry {p} set to {v!r}{' in the array the getter returns' if how == 'in-place' else ''} is written "
                         f"{('as a jump' if p < len(ent) else 'by leaving the entry off') + ', which MCNP reads as ' + str(y) if as_jump else 'as ' + str(to_float_str(y))} "
                         f"(card {case['card']!r} written {o['lines']!r})")
     return None
@@ -610,6 +723,62 @@ def tr_compare_model(o, m):
         if a is not None and not nf.close_pinned(a, nf.to_float(b)):
             return f"entry {p}: written {nf.to_float(a)!r}, model {nf.to_float(b)!r}"
     return None
+
+
+def tr_history_case(case, res):
+    """The history of one transform case for the model (driver unit transform-history): the transform as it was read,
+    the steps that took effect, and for every write the nodes it left (observed before the next write).  None when
+    a state could not be observed or a write raised."""
+    st0, outs = res.get("state0"), res.get("outs", [])
+    if "skip" in res or st0 is None or any(o.get("state") is None or "lines" not in o for o in outs):
+        return None
+    applied = set(res.get("applied", []))
+    ops, k = [], 0
+    for n_op, op in enumerate(case["ops"]):
+        if op[0] in ("deg", "rot", "disp"):
+            ops.append(op)
+        elif op[0] in ("rot_at", "disp_at"):
+            if n_op in applied:
+                ops.append(op)
+        elif op[0] == "rot_back":
+            if n_op in applied:  # handing the same array back through the setter: the assignments into it are the edit
+                ops += [["rot_at", j, v] for j, v in op[1] if j < 9]
+        else:
+            if k >= len(outs):
+                break
+            ops.append(["write", outs[k + 1]["state"]["nodes"] if k + 1 < len(outs) else []])
+            k += 1
+    if k != len(outs):
+        return None
+    return dict(st0, unit="transform-history", ops=ops)
+
+
+def tr_history_compare(res, m):
+    """U-transform-history: at every write, what the model holds after the same steps (unit, both vectors: exact) and
+    the entries it writes against the live transform and the written card.  None when they agree."""
+    if "error" in m or len(m.get("writes", [])) != len(res["outs"]):
+        return "model: " + str(m.get("error", "number of writes"))
+    for k, (o, w) in enumerate(zip(res["outs"], m["writes"])):
+        st = o["state"]
+        if w["read"] != w["held"]:
+            return f"write {k}: C05_transform_history evaluated on the executable model fails"
+        if w["deg"] != st["deg"]:
+            return f"write {k}: unit held"
+        for name in ("disp", "rot"):
+            if [nf.unrat(x) for x in w[name]] != [Fraction(nf.unnum(x)) for x in st[name]]:
+                return f"write {k}: {name} held: impl {[float(nf.unnum(x)) for x in st[name]]}, model {[float(nf.unrat(x)) for x in w[name]]}"
+        d = tr_compare_model(o, w)
+        if d is not None:
+            return f"write {k}: {d}"
+    return None
+
+
+def _tr_history_disagreement(drv, case):
+    res = run_impl_tr(case)
+    if "skip" in res or judge_tr(case, res) is not None:
+        return None
+    h = tr_history_case(case, res)
+    return None if h is None else tr_history_compare(res, drv.batch([h])[0])
 
 
 def shrink_tr_case(case, still_fails):
@@ -662,6 +831,19 @@ def shrink_tr_case(case, still_fails):
                     ops2[j] = [op[0], vec]
                     if attempt(dict(cur, ops=ops2)):
                         break
+        elif op[0] in ("rot_at", "disp_at") and nf.unnum(op[2]) not in (0.0, 1.0, 90.0, 0.5):
+            for simple in (0.5, 0.0, 1.0, 90.0):
+                ops2 = list(cur["ops"])
+                ops2[j] = [op[0], op[1], nf.num(simple)]
+                if attempt(dict(cur, ops=ops2)):
+                    break
+        elif op[0] == "rot_back" and len(op[1]) > 1:
+            for q in range(len(op[1]) - 1, -1, -1):  # fewer entries modified before the array is handed back
+                pairs = cur["ops"][j][1]
+                if len(pairs) > 1:
+                    ops2 = list(cur["ops"])
+                    ops2[j] = [op[0], pairs[:q] + pairs[q + 1:]]
+                    attempt(dict(cur, ops=ops2))
     return cur
 
 
@@ -1249,7 +1431,9 @@ def run(chk):
         "is_negative assignments and format() calls; API cases parse a real surface/cell/transform/material card, "
         "assign through the public setter and write the card; transform cases parse a TR / *TR input with jumps (j, nJ) "
         "anywhere among its up to 13 entries, assign is_in_degrees / rotation_matrix / displacement_vector in any order "
-        "(values drawn from the defaults of either unit, a pool and random numbers), and write once or twice. Values: integers, halves, 1-17 digit decimals over "
+        "(values drawn from the defaults of either unit, a pool and random numbers), and write once or twice; in-place histories "
+        "write the input, then assign entries IN the arrays the getters hand out (t.rotation_matrix[k] = v, t.displacement_vector[k] = v, "
+        "fetch / modify / hand back through the setter), alone or next to setter assignments, and write again, for 1-3 rounds. Values: integers, halves, 1-17 digit decimals over "
         "1e-300..1e300, ties +- ulps, near-integers, near the old value, +-0.0, random doubles. A case is non-trivial "
         "when a changed value has to be written (not the unchanged-token shortcut); distinct = distinct canonical JSON."
     )
@@ -1455,6 +1639,9 @@ def run(chk):
     # ------------------------------------------------------------------ TR inputs read with jumps: unit and vectors set through the API
     rng = chk.rng("transform")
     tr = file_tr + list(TR_CORPUS) + [gen_tr_case(rng, i) for i in range(chk.pick(4000, 80000))]
+    # edits through the arrays the getters hand out (element assignment, fetch / modify / hand back), between writes
+    rng = chk.rng("transform-inplace")
+    tr += [gen_tr_inplace_case(rng, i) for i in range(chk.pick(3000, 60000))]
     tr_res = pmap(run_impl_tr, tr, workers=WORKERS, chunksize=100)
     tstates, twhere = [], []
     for i, r in enumerate(tr_res):
@@ -1464,14 +1651,26 @@ def run(chk):
                 twhere.append((i, k))
     tr_model = batch_par(drv, tstates)
     model_by = dict(zip(twhere, tr_model or []))
+    hist = [(i, h) for i, h in ((i, tr_history_case(c, r)) for i, (c, r) in enumerate(zip(tr, tr_res))) if h is not None]
+    hist_model = batch_par(drv, [h for _, h in hist])
+    hist_by = {i: m for (i, _), m in zip(hist, hist_model or [])}
     shrunk = {}
     for i, (case, res) in enumerate(zip(tr, tr_res)):
-        assigned = any(op[0] in ("rot", "disp") for op in case["ops"])
+        assigned = any(op[0] in ("rot", "disp", "rot_at", "disp_at", "rot_back") for op in case["ops"])
         chk.note_case(case, "skip" not in res and assigned, sample_every=10000)
         chk.count("transform:" + ("skipped:" + res["skip"] if "skip" in res else "vector-assigned" if assigned else "unit-only"))
         if "skip" not in res and any(op[0] == "deg" for op in case["ops"]):
             chk.count("transform:unit-assigned")
-        v = judge_tr(case, res)
+        inplace = [n_op for n_op, op in enumerate(case["ops"]) if op[0] in ("rot_at", "disp_at", "rot_back")]
+        if inplace and "skip" not in res:
+            chk.count("transform:in-place-edit" + ("" if set(inplace) & set(res.get("applied", [])) else ":no-entry-to-assign"))
+            fm = [n_op for n_op, op in enumerate(case["ops"]) if op[0] == "format"]
+            if any(fm[0] < n_op < fm[-1] for n_op in res.get("applied", [])):
+                chk.count("transform:in-place-edit-between-writes")
+        notes = []
+        v = judge_tr(case, res, notes)
+        for note in notes:
+            chk.count("transform:" + note)
         if v is not None:
             r2 = run_impl_tr(case)
             v2 = judge_tr(case, r2)
@@ -1492,6 +1691,28 @@ def run(chk):
                 what = judge_tr(mc, rr)[1]
             chk.violation(v[0], what, {"case": mc, "impl": rr})
             continue  # the state of this case is not compared any further
+        if i in hist_by:
+            chk.traces_validated += 1
+            d = tr_history_compare(res, hist_by[i])
+            if d is not None:
+                if chk.disagreements_checked >= MAX_CONFIRM:
+                    chk.count("disagreement-not-rechecked:transform-history")
+                elif _tr_history_disagreement(drv, case) != d:
+                    chk.count("flaky:transform-history")
+                else:
+                    chk.disagreements_checked += 1
+
+                    def hist_differs(c2):
+                        return _tr_history_disagreement(drv, c2) is not None
+
+                    mc = shrink_tr_case(case, hist_differs) if len(chk.broken) < 3 else case
+                    chk.broken_obligation(
+                        "correspondence",
+                        "U-transform-history (Model/TransformWrite.lean run/writesOf vs the live Transform over setters, in-place assignments and writes)",
+                        {"difference": _tr_history_disagreement(drv, mc) or d, "impl": run_impl_tr(mc).get("outs")},
+                        mc,
+                    )
+                continue
         for k, o in enumerate(res.get("outs", [])):
             m = model_by.get((i, k))
             if m is None:
@@ -1524,6 +1745,7 @@ def run(chk):
                 mc,
             )
             break
+    chk.units["U-transform-history"] = {"histories_compared": len(hist)}
     chk.units["U-transform"] = {"corpus": len(TR_CORPUS) + len(file_tr), "random": len(tr) - len(TR_CORPUS) - len(file_tr), "writes_compared": len(tstates)}
     if chk.thorough and not chk.broken:
         leanio.leanchecker(chk, ["MontePyVerif.Props.C05"])
